@@ -60,6 +60,15 @@ CHECKS = {
  "C20": ("program-space exploration of constant argument lists for str_concat!/str_join!/from_iter!/slice_concat! evaluated at compile time, plus exhaustive byte strings for the CStr functions, against std",
          "All lists of 0..=3 pieces over an alphabet with multi-byte strings/chars x all separators x three argument forms, each evaluated by rustc in its own const and compared with concat/join/collect at run time; CStr constructors and conversions on all byte strings up to length 6 over {0,'a',C3,B1,FF} against core::ffi::CStr (success agreement, equal CStr, bytes by address).",
          "3/C20"),
+ "C01": ("three monitors over the bounded explorations of the other properties: the Miri interpreter on the reduced-bound explorers (one interpreter process per engine), rustc's const evaluator on a battery of const-fn drivers, and a native sub-range/UTF-8 oracle on every returned slice/str",
+         "Run-time UB: every explorer of C02-C09, C15, C20 (thorough: also C12, C13, C16) plus a driver for maybe_uninit/manually_drop/ptr/nonnull/array macros/destructure!/DSL macros executed under Miri at an interpreter-sized bound; compile-time UB: const-fn drivers that loop over small alphabets through every unsafe-backed safe function and macro form inside `const` items (error[E0080] = violation); location/UTF-8: every non-empty result of the string engines must lie inside its argument on char boundaries. Coverage of `unsafe` sites is bound by harness/unsafe_sites.json (unmapped files are reported).",
+         "3/C01"),
+ "C17": ("program-space exploration, compile-only: one generated program per (guard x syntactic shape) and a minimally different control, decided by rustc through cargo check --keep-going --message-format=json",
+         "About 240 generated bin targets: every misuse listed in the property (destructure! on Drop types, references, wrong counts, `..`; DSL double reversal, unsupported methods, arguments to argument-less methods; parser_method! non-literal patterns, missing/extra default branch) in every syntactic shape the macro accepts, each with a control that differs only by the offending element; invalid must be rejected, control must compile; diagnostics are recorded, not matched.",
+         "3/C17"),
+ "C18": ("program-space exploration: generated literal sets x six methods, each program run on all inputs over its own literals; the same literal tokens are decoded by rustc in the reference",
+         "Every escape kind alone, embedded and in pairs, line continuations followed by every whitespace class, raw strings with 0-2 hashes, multi-byte text, the empty literal and concat!, plus multi-branch sets with prefix-related literals, for strip_prefix/strip_suffix/find_skip/rfind_skip/trim_start_matches/trim_end_matches; inputs are all strings of up to 3 atoms over the program's literals and a foreign char, from three parser states; branch taken, offsets and remainder (content and address) compared with a reference that uses the same literal tokens as &str expressions.",
+         "3/C18"),
 }
 
 NOT_APPLICABLE = {}
@@ -95,7 +104,7 @@ def main():
                 "thorough_cmd": f"./check {pid} --tier thorough",
                 "evidence_file": f"/verif/evidence/{pid}.json",
                 "replay_cmd_template": f"./check {pid} --replay {{path}}",
-                "engine": "rt" if pid not in ("C10", "C17", "C18", "C19") else "e3",
+                "engine": "rt" if pid not in ("C10", "C17", "C18", "C19", "C01") else "e3",
                 "level_claimed": {"category": "model_checking", "text": text, "design_ref": f"DESIGN.md section {ref}"},
                 "level_note": COMMON_NOTE,
                 "technique": tech,
